@@ -68,6 +68,15 @@ def extendFromSlice (dr : Bool) (c src : Cols) : Model.Out :=
 open Soa.Lp in
 def extend (dr : Bool) (c : Cols) (es : List Cols) : Model.Out :=
   (run { dr := dr, ps := [.elems es], M := methods dr c, fuel := c.firstLen + 2 } lp_PVec_Extend_P_extend c).getD (Model.extend c es)
+/-- hand-written: `extend` from an iterator that panics at item `k` — the items before it are pushed, the rest is destroyed -/
+def extendBoomModel (dr : Bool) (c : Cols) (es : List Cols) (k : Nat) : Model.Out :=
+  let r := Model.extend c (es.take k)
+  if r.panicked then r
+  else if k < es.length then { st := r.st, panicked := true, ev := Soa.Lp.dropCols dr (es.drop k) } else r
+open Soa.Lp in
+def extendBoom (dr : Bool) (c : Cols) (es : List Cols) (k : Nat) : Model.Out :=
+  (run { dr := dr, ps := [.elemsBoom es k], M := methods dr c, fuel := c.firstLen + 2 } lp_PVec_Extend_P_extend c).getD
+    (extendBoomModel dr c es k)
 open Soa.Lp in
 /-- `collect()`: `FromIterator::from_iter` -/
 def fromIter (dr : Bool) (empty : Cols) (es : List Cols) : Model.Out :=
@@ -423,6 +432,15 @@ def stepCore (cx : Ctx) (w : World) (ws : List String) : StepOut :=
       let os := Spec.extend (getS r) (es.map Cols.rows).flatten
       elemOp r oi os false (es.map Cols.flat).flatten
     | _, _ => badOp w
+  | ["extend_boom", r, ts, k] =>
+    match parseReg r, parseNats ts, k.toNat? with
+    | some r, some ts, some k =>
+      let es := ts.map sh.elem
+      let oi := Gen.extendBoom dr (getI r) es k
+      let pre := Spec.extend (getS r) ((es.take k).map Cols.rows).flatten
+      let os : Spec.Out := if k < es.length then { pre with panicked := true, ev := dropRows dr ((es.drop k).map Cols.rows).flatten } else pre
+      elemOp r oi os false (es.map Cols.flat).flatten
+    | _, _, _ => badOp w
   | ["collect", r, ts] =>
     match parseReg r, parseNats ts with
     | some r, some ts =>
